@@ -165,6 +165,15 @@ def check(ctx):
     rret = [n for n in rd.own_nodes() if isinstance(n, ast.Return)]
     ok = len(rret) == 1 and norm(rret[0].value) == (rtxt[0] if rtxt else "")
     ctx.ob("C12.S2", "MountedStore/read-returns-inner", ok, loc(rd), "read returns the inner store's value unmodified")
+    # ------------------------------------------------------------ S4 a successful write publishes what it was given
+    ctx.rule("C12.S4", "a write that returns normally has replaced the target with the staged value on every path (publication CFG of the staging helper): no 'unchanged, skip the rename' shortcut can drop a written value")
+    sub = type(ctx)(ctx.pid, ctx.model, ctx.tier, quiet=True)
+    ctx.run(lambda _c: c11.check(sub))
+    for o in sub.obligations:
+        if o["rule"] in ("C11.A8", "C11.A2", "C11.A3"):
+            o = dict(o)
+            o["rule"] = "C12.S4"
+            ctx.obligations.append(o)
     # ------------------------------------------------------------ S3 missing => None
     g = [f for f in m.find_funcs("get_modified_time") if f.cls is None and f.module is filestore.module]
     if len(g) != 1:
